@@ -896,4 +896,4 @@ func classify(c *Case, o *vkit.Outcome, runs []*reqRun) {
 
 var prop = vkit.NewProp([]string{P}, "c11lines", gen, run)
 
-func TestC11Lines(t *testing.T) { prop.Check(t) }
+func TestC11Lines(t *testing.T) { prop.CrashFile = true; prop.Check(t) }
